@@ -2,7 +2,7 @@
    Packet level (Frag): what send() does when a transmission attempt finds the receiving end gone.
    Reference level (K/MK, proofs/KProofs.v): when exactly the receiving end is gone. *)
 From Coq Require Import ZArith List Lia.
-From IPC Require Import U64 Params Frag ParamsFacts FragProofs PipeProofs.
+From IPC Require Import U64 Params Frag ParamsFacts FragProofs PipeProofs K KProofs Prog Ideal IdealProofs.
 Import ListNotations.
 Open Scope Z_scope.
 
@@ -28,3 +28,28 @@ Example C09_ex :
   snd (send 50 4096 20000 0 [FOk; FPipe]) =
     [EvSocketpair; EvSendmsg 20000 0 4056 1 true SOk; EvCloseDedRx; EvSend 4056 8120 SPipe; EvCloseDedTx].
 Proof. vm_compute. repeat split. Qed.
+
+Close Scope Z_scope.
+Local Open Scope nat_scope.
+(* WHEN is the receiving end gone?  Reference level (Ideal, carried to the unix back end by unix_refines_ideal):
+   a send fails exactly when no receiver handle of the channel is alive AND no receiving end of it is in transit
+   inside an undelivered message of a live channel - one in transit still counts, and then the message is queued *)
+Theorem C09_send_err_iff : forall (s : ist) (h : hid) (c : nat) (data : BinNums.Z),
+  i_inv s -> lookup (ih s) h = Some (IS c) ->
+  snd (i_step s (OSend h data nil)) = RSendErr <->
+  (forall h' : hid, lookup (ih s) h' <> Some (IR c)) /\
+  (forall (c' : nat) (ch : chan) (m : msg),
+     nth_error (chans (ik s)) c' = Some ch -> dead ch = false -> In m (q ch) -> ~ In (RR c) (m_rights m)).
+Proof. exact IdealProofs.C09_send_err_iff. Qed.
+Print Assumptions C09_send_err_iff.
+Theorem C09_in_transit_is_queued : forall (s : ist) (h : hid) (c : nat) (data : BinNums.Z),
+  i_inv s -> lookup (ih s) h = Some (IS c) -> snd (i_step s (OSend h data nil)) = RSent ->
+  q (get_chan (ik (fst (i_step s (OSend h data nil)))) c) = q (get_chan (ik s) c) ++ {| m_data := data; m_rights := nil |} :: nil.
+Proof. exact IdealProofs.C09_send_ok_queues. Qed.
+Print Assumptions C09_in_transit_is_queued.
+
+Example C09_ex_transit :
+  snd (i_run i_init [ONew; ONew; OSend 0 1%Z [ARx 3]; OSend 2 7%Z []; ORecv 1; ORecv 4; ODrop 1; ODrop 4; OSend 2 8%Z []])
+  = [RNew 0 1; RNew 2 3; RSent; RSent; RMsg 1%Z [(KRx, 4)]; RMsg 7%Z []; RDropped; RDropped; RSendErr].
+Proof. vm_compute. reflexivity. Qed.
+
